@@ -187,7 +187,8 @@ static void check_meta (SNDFILE *r, META *me, const char *fn, const char *q, int
 }
 
 static void run_case (int format, int ch, int mask, int late_mask, int order_seed)
-{	MEMF m ; SNDFILE *s ; SF_INFO ri ; static META me, lm ; const char *fn = vh_fname (format) ; int N = 1500, i, fp = vh_is_fp (format & SF_FORMAT_SUBMASK) ; short *audio = malloc (2 * N * ch), *back ; float *fb ; char q [48] ;
+{	int twice = 0 ;
+	MEMF m ; SNDFILE *s ; SF_INFO ri ; static META me, lm ; const char *fn = vh_fname (format) ; int N = 1499 + (order_seed % 3), i, fp = vh_is_fp (format & SF_FORMAT_SUBMASK) ; short *audio = malloc (2 * N * ch), *back ; float *fb ; char q [48] ;
 	char lq [48] = "" ;
 	if (late_mask)
 	{	static const char kc [] = "SBCQIM" ; char nw [8] = "", ag [8] = "" ; int a = 0, b = 0, i2 ;
@@ -199,6 +200,10 @@ static void run_case (int format, int ch, int mask, int late_mask, int order_see
 	gen_meta (&me, format, ch, mask) ; gen_meta (&lm, format, ch, late_mask) ;
 	memset (&m, 0, sizeof (m)) ;
 	s = vh_open_w (&m, format, ch, 44100, NULL) ; if (!s) { free (audio) ; return ; }
+	if (order_seed % 4 == 1 && mask)		/* every item is first set with OTHER contents: the later call before any audio must win */
+	{	static META pre ; int t2 ; gen_meta (&pre, format, ch, mask) ;
+		for (t2 = SF_STR_FIRST ; t2 <= SF_STR_LAST ; t2++) { pre.strset [t2] = me.strset [t2] ; if (pre.strset [t2] && !pre.str [t2][0]) rnd_text (pre.str [t2], 9, 0) ; }		/* the same string types, other texts */
+		apply_meta (s, &pre, order_seed + 7) ; vh_stat ("cases_with_items_set_twice", 1) ; twice = 1 ; }
 	apply_meta (s, &me, order_seed) ;
 	if (sf_writef_short (s, audio, N) != N) { vh_viol (vh_key ("C12|audio-write|%s%s", fn, q), "audio write failed after setting metadata: %s", sf_strerror (s)) ; sf_close (s) ; goto out ; }
 	if (late_mask) apply_meta (s, &lm, order_seed + 1) ;		/* too late: may be refused or ignored, must not damage anything */
@@ -212,6 +217,17 @@ static void run_case (int format, int ch, int mask, int late_mask, int order_see
 		else vh_stat ("audio_intact", 1) ; }
 	free (back) ; free (fb) ;
 	check_meta (s, &me, fn, q, 1, late_mask) ;
+	/* strings set for the FIRST time after the audio: the RIFF and AIFF writers keep such strings in a chunk behind the audio; when sf_set_string reported success
+	** the outcome is recorded in the evidence (kept / changed / lost) */
+	if ((late_mask & (1 << K_STR)) && !(mask & (1 << K_STR)) && late_mask == (1 << K_STR))
+	{	int maj = format & SF_FORMAT_TYPEMASK, t ;
+		if ((maj == SF_FORMAT_WAV || maj == SF_FORMAT_WAVEX || maj == SF_FORMAT_RF64 || maj == SF_FORMAT_AIFF) && !(format & SF_FORMAT_ENDMASK))
+			for (t = SF_STR_FIRST ; t <= SF_STR_LAST ; t++) if (lm.strset [t] && lm.strrc [t] == 0 && in_matrix (maj, K_STR, t) && t != SF_STR_SOFTWARE)
+			{	const char *g = sf_get_string (s, t) ; vh_stat ("late_strings_checked", 1) ;
+				/* observed, not judged: the property lets an item that is set too late be "reported as failure or ignored" */
+				vh_statf (1, "late_string_%s:%s-data-bytes", (g && !strcmp (g, lm.str [t])) ? "kept" : g ? "changed" : "lost", ((long) N * ch * (vh_bits (format) / 8)) & 1 ? "odd" : "even") ;
+				}
+		}
 	vh_check_inv (s, "metadata queries") ;
 	sf_close (s) ;
 out :
@@ -223,7 +239,7 @@ int main (int argc, char **argv)
 	static const int subs [] = { SF_FORMAT_PCM_16, SF_FORMAT_FLOAT, SF_FORMAT_PCM_24, SF_FORMAT_ULAW } ;
 	int a, b, c, k ;
 	vh_init (argc, argv, "c12_metadata", "C12") ;
-	for (a = 0 ; a < 8 ; a++) for (b = 0 ; b < (vh_thorough ? 4 : 2) ; b++) for (c = 1 ; c <= (vh_thorough ? 6 : 2) ; c++)
+	for (a = 0 ; a < 8 ; a++) for (b = 0 ; b < (vh_thorough ? 4 : 3) ; b++) for (c = 1 ; c <= (vh_thorough ? 6 : 2) ; c++)
 	{	int format = majors [a] | subs [b] ;
 		if (!vh_accepts (format, c, 44100)) continue ;
 		for (k = 0 ; k < (vh_thorough ? 15000 : 3000) ; k++)
